@@ -175,7 +175,7 @@ def classify(trace, rejects):
     return out
 
 
-def run_property(pid, level="model_checking"):
+def run_property(pid, level="model_checking", extra=None):
     """Pipeline shared by C05 / C06 / C12: MC ideal -> counterexamples + random behaviours of the faithful model
     -> replay on the real code -> ServeObs judges the event log.  Only the reasons of `pid` count."""
     rep = vlib.Report(pid, level)
@@ -255,6 +255,8 @@ def run_property(pid, level="model_checking"):
                "rejections_belonging_to_other_properties": other}
     rep.assumptions = ["TLC", "the instrumented in-memory backend reproduces the open/catch-up/close behaviour of the CDB and RocksDB drivers "
                        "(cross-checked by the real-backend stress of C14)", "goroutines are parked only at public seams; interleavings between seams are left to the Go runtime"]
+    if extra is not None:
+        extra(rep)
     return rep.finish()
 
 
